@@ -28,8 +28,25 @@ _real = {
     "remove": os.remove, "unlink": os.unlink, "exists": os.path.exists,
     "isfile": os.path.isfile, "glob": _glob.glob, "rmtree": _shutil.rmtree,
     "makedirs": os.makedirs, "sleep": _time.sleep, "rmdir": os.rmdir,
-    "listdir": os.listdir,
+    "listdir": os.listdir, "scandir": os.scandir,
 }
+_tls = threading.local()
+
+
+class bypass:
+    """Inside this block the calling thread's file operations are not
+    intercepted (used around the real implementation of composite calls such
+    as glob, and by harness code that inspects the files)."""
+
+    def __enter__(self):
+        self._old = getattr(_tls, "off", False)
+        _tls.off = True
+
+    def __exit__(self, *exc):
+        _tls.off = self._old
+        return False
+
+
 CHUNK = 8192
 RMTREE_ORDER = "scandir"     # or 'sorted' / 'reversed' (listing order)
 
@@ -161,6 +178,8 @@ class Interceptor:
 
     def _under(self, path):
         """Path under the root and the caller is an actor."""
+        if getattr(_tls, "off", False):
+            return None
         if not isinstance(path, (str, bytes, os.PathLike)):
             return None
         try:
@@ -182,6 +201,8 @@ class Interceptor:
 
     def op(self, kind, path, **info):
         self.count += 1
+        with bypass():              # the controller may inspect files itself
+            pass
         return self.ctl.op(kind, path, **info)
 
     def install(self):
@@ -236,7 +257,8 @@ class Interceptor:
         def x_glob(pattern, *a, **k):
             if me._mine(os.path.dirname(pattern)):
                 me.op("glob", pattern)
-            return _real["glob"](pattern, *a, **k)
+            with bypass():          # its internal scandir is not a new op
+                return _real["glob"](pattern, *a, **k)
 
         def x_rmtree(path, *a, **k):
             if not me._mine(path):
@@ -246,7 +268,7 @@ class Interceptor:
             me.op("rmtree-begin", os.fspath(path))
 
             def rm(d):
-                with os.scandir(d) as it:
+                with _real["scandir"](d) as it:
                     entries = list(it)
                 if RMTREE_ORDER == "sorted":
                     entries.sort(key=lambda e: e.name)
@@ -268,6 +290,18 @@ class Interceptor:
                 return None
             return _real["sleep"](t)
 
+        def x_listdir(path="."):
+            if me._mine(path):
+                me.op("listdir", os.fspath(path))
+            return _real["listdir"](path)
+
+        def x_scandir(path="."):
+            if me._mine(path):
+                me.op("listdir", os.fspath(path))
+            return _real["scandir"](path)
+
+        os.listdir = x_listdir
+        os.scandir = x_scandir
         builtins.open = x_open
         io.open = x_open
         os.replace = wrap2("replace", _real["replace"])
@@ -295,6 +329,8 @@ class Interceptor:
         _glob.glob = _real["glob"]
         _shutil.rmtree = _real["rmtree"]
         _time.sleep = _real["sleep"]
+        os.listdir = _real["listdir"]
+        os.scandir = _real["scandir"]
 
 
 # --------------------------------------------------------------------------- #
